@@ -33,6 +33,10 @@ type vfCaseC01 struct {
 	Ops     []vfC01Op
 	Window  int   `json:",omitempty"`
 	Order   []int `json:",omitempty"`
+	// peer backend: what STAT/FSTAT report differs from what the handle holds by this much (the file was
+	// replaced, or grew or shrank, between the stat and the transfer): the size is a hint for WriteTo, never a
+	// bound (seed C01-e)
+	StatSkew int64 `json:",omitempty"`
 }
 
 const vfC01Seed = 61
@@ -110,6 +114,9 @@ func vfGenC01(t *rapid.T) vfCaseC01 {
 	if c.Backend == "peer" {
 		c.Window = rapid.SampledFrom([]int{1, 2, 4, 16, 64}).Draw(t, "window")
 		c.Order = rapid.SliceOfN(rapid.IntRange(0, 63), 1, 16).Draw(t, "order")
+		if rapid.IntRange(0, 2).Draw(t, "skewed") == 0 {
+			c.StatSkew = int64(rapid.SampledFrom([]int{-1, 1, -p, p, -p - 1, -c.L0 / 2, -c.L0, c.L0, 5 * p}).Draw(t, "statskew"))
+		}
 	}
 	return c
 }
@@ -181,6 +188,7 @@ func vfRunC01(ctx *vfCtx, c vfCaseC01) {
 		s, err := vfStartSession(c.Opts, func(pp *vfPeer, l *vfLink) {
 			pp.addFile("/t", initial)
 			pp.window, pp.order = c.Window, c.Order
+			pp.sizeSkew = c.StatSkew
 		})
 		if err != nil {
 			ctx.Failf("harness/handshake", "%v", err)
